@@ -1877,6 +1877,11 @@ class Interp:
             if f is not None:
                 return self.truth(self.call(self.bind(f[0], container, f[1]), [item], {}))
             raise Unsupported("'in' on %s without __contains__" % container.cls.__name__)
+        if type(container).__name__ == "SymRange" and type(container).__module__ == "pyvc.libmodels":
+            t = term(item)
+            if t.sort() != z3.IntSort():
+                raise Unsupported("membership of a non-integer in a symbolic range")
+            return mk(z3.And(term(container.lo) <= t, t < term(container.hi)), bool)
         if isinstance(container, (list, tuple)):
             if not has_sym(item) and not has_sym(container):
                 try:
